@@ -61,6 +61,7 @@ class Inbound:
         rdtype: dns.rdatatype.RdataType = dns.rdatatype.AXFR,
         serial: int | None = None,
         is_udp: bool = False,
+        require_tsig: bool = False,
     ):
         """Initialize an inbound zone transfer.
 
@@ -73,6 +74,9 @@ class Inbound:
 
         :param is_udp: Whether UDP is being used for this XFR.
         :type is_udp: bool
+        :param require_tsig: Whether the final message of the transfer must be
+            signed; if it is not, the transfer is refused instead of applied.
+        :type require_tsig: bool
         """
         self.txn_manager = txn_manager
         self.txn: dns.transaction.Transaction | None = None
@@ -89,6 +93,7 @@ class Inbound:
             raise ValueError("rdtype is not IXFR or AXFR")
         self.serial = serial
         self.is_udp = is_udp
+        self.require_tsig = require_tsig
         _, _, origin = txn_manager.origin_information()
         if origin is None:
             raise ValueError("transaction manager must supply an origin for XFRs")
@@ -251,6 +256,8 @@ class Inbound:
             #
             raise dns.exception.FormError("unexpected end of UDP IXFR")
         if self.done and self.txn is not None:
+            if self.require_tsig and not message.had_tsig:
+                raise dns.exception.FormError("missing TSIG")
             self.txn.commit()
             self.txn = None
         return self.done
